@@ -220,7 +220,7 @@ func runMerge(cfg *runCfg, prop string, injectPct int, oracle string) error {
 		or := strings.NewReplacer("sources", fmt.Sprintf("sources%d", id), "obs", fmt.Sprintf("obs%d", id), "internal", c.Schema(internal), "s🎉", c.S("🎉")).Replace(oracle)
 		// the model must predict every observation, and the generated sources must meet the theorems' hypothesis
 		// (sources_wfb, types_wfb: the executable hypotheses of the order theorems of C10, on the services and the gateway's own schema)
-		c.Printf("Eval vm_compute in (%d%%nat, andb (andb (sources_wfb (map snd sources%d ++ [%s])) (types_wfb (map snd sources%d ++ [%s]))) (model_agrees %s sources%d %s obs%d), %s).\n",
+		c.Printf("Eval vm_compute in (\"%d\"%%string, andb (andb (sources_wfb (map snd sources%d ++ [%s])) (types_wfb (map snd sources%d ++ [%s]))) (model_agrees %s sources%d %s obs%d), %s).\n",
 			id, id, c.Schema(internal), id, c.Schema(internal), c.S("🎉"), id, c.Schema(internal), id, or)
 		tag := "compatible"
 		if mc.Mutation != "" {
